@@ -285,9 +285,10 @@ func TestVerifC11(t *testing.T) {
 }
 
 // vC11Replicated: the cursors partition with a second, phantom replica (partdrv_test.go).
-//  (1) SetCursor must not report success before the in-sync replica has the record;
-//  (2) after the leadership went to the other replica, which stored a newer cursor, and came back,
-//      FetchCursor must not answer from what this server cached in its earlier term.
+//
+//	(1) SetCursor must not report success before the in-sync replica has the record;
+//	(2) after the leadership went to the other replica, which stored a newer cursor, and came back,
+//	    FetchCursor must not answer from what this server cached in its earlier term.
 func vC11Replicated(out *vOut, stats map[string]int) {
 	srv := vStartServer("a", func(cfg *Config) {
 		vPartConfig(1)(cfg)
